@@ -28,6 +28,10 @@ class RefError(Exception):
     pass
 
 
+class NoClaim(Exception):
+    """The rules say nothing definite about this document (stated where raised)."""
+
+
 class Evaluator:
     def __init__(self):
         self.ordered_ids = set()
@@ -163,7 +167,11 @@ class Evaluator:
                     k, v = sub.value[0]
                     if self.is_merge_key(k):
                         raise RefError("merge key inside an omap/pairs entry")
-                    kv = self.value(k) if not (k.tag == T + "value" and k.id == "scalar") else k.value
+                    if k.tag == T + "value" and k.id == "scalar":
+                        # a plain '=' is retagged to a string only where mappings are flattened; as the key of an omap / pairs
+                        # entry the library rejects it or not depending on whether that node was flattened before: no claim
+                        raise NoClaim("plain '=' as the key of an omap/pairs entry")
+                    kv = self.value(k)
                     out.append((kv, self.value(v)))
                 return out
             raise RefError("sequence with tag %s" % tag)
